@@ -16,7 +16,7 @@ CHECKS = {
          "all 25 match() bodies and the match.hpp protocol, then induction on fuel. The model is tied to /repo by a full-trace differential run (every "
          "Control<Rule>::match invocation, hidden internal rules included) and the property is also evaluated directly on the implementation's own trace; "
          "in addition every shipped grammar (json, uri, iri, http with its hand-written chunk rules, abnf, integer, raw_string, utf8/16/32, uintN, json_pointer, lua53, proto3) is parsed under a monitor control that "
-         "checks the property at every invocation of every rule (local failure under rewind_mode::required: cursor unmoved; success: never backwards)."),
+         "checks the property at every invocation of every rule (local failure under rewind_mode::required: cursor unmoved; success: never backwards); the systematic family is also run over a buffer_input fed byte by byte (its own rewind marks)."),
    note=GENERAL_NOTE + " Modelled: core, convenience, state and try_catch/must rules, all one-argument ascii atoms, utf8 ranges, maximum_rule, contrib rep_one_min_max, contrib predicates (resolved to their byte sets); integer and raw_string rules are covered by their own leaf models (C15, C16); the http chunk rules only by C03's shipped-grammar run.",
    technique="Lean 4 proof by invariant closure + induction on fuel over an executable model; differential correspondence on generated C++ grammars; trace oracle"),
  'C01': dict(engine='matcher-model', design_ref='DESIGN.md §6 C01',
